@@ -57,7 +57,12 @@ type Server struct {
 	// (Postfix strict_smtputf8). Set before the first connection.
 	Strict bool
 
-	mu       sync.Mutex
+	mu sync.Mutex
+	// sizeOn/size: what the NEXT EHLO announces as RFC 1870 SIZE (set with NextSize before the client
+	// opens the connection: the announcement belongs to the recipient domain the connection is for)
+	sizeOn   bool
+	size     int
+	no8bit   bool // the next EHLO does not announce 8BITMIME
 	nextRcpt byte
 	// OnData decides the reply to end-of-data of an SMTP transaction (0 or 250 = accept).
 	OnData func(to []string) int
@@ -98,6 +103,21 @@ func (s *Server) NextRcpt(a byte) {
 }
 
 // Pending returns the announced action if no RCPT command has consumed it yet (0 otherwise).
+// NextSize scripts the SIZE announcement of the EHLO replies sent from now on (on = false: the
+// extension is not offered; n = 0: offered without a fixed limit).
+func (s *Server) NextSize(on bool, n int) {
+	s.mu.Lock()
+	s.sizeOn, s.size = on, n
+	s.mu.Unlock()
+}
+
+// Next8Bit scripts whether the EHLO replies sent from now on announce 8BITMIME.
+func (s *Server) Next8Bit(announce bool) {
+	s.mu.Lock()
+	s.no8bit = !announce
+	s.mu.Unlock()
+}
+
 func (s *Server) Pending() byte {
 	s.mu.Lock()
 	defer s.mu.Unlock()
@@ -194,8 +214,18 @@ func (s *Server) handle(c net.Conn, serial int) {
 			if s.UTF8 {
 				w("250-SMTPUTF8")
 			}
+			s.mu.Lock()
+			sizeOn, size, no8bit := s.sizeOn, s.size, s.no8bit
+			s.mu.Unlock()
+			if sizeOn {
+				w(fmt.Sprintf("250-SIZE %d", size))
+			}
 			w("250-ENHANCEDSTATUSCODES")
-			w("250 8BITMIME")
+			if no8bit {
+				w("250 HELP")
+			} else {
+				w("250 8BITMIME")
+			}
 		case strings.HasPrefix(cmd, "HELO"):
 			w("250 raw.example.invalid")
 		case strings.HasPrefix(cmd, "MAIL"):
